@@ -4,6 +4,9 @@ From Coq Require Import List ZArith Bool Reals Lra Lia.
 From ML Require Import Ops Vec NP VecR MatR Mahalanobis MahalanobisR.
 From MLgen Require Import Src_query.
 Import ListNotations.
+(* This file mentions only transform / pair_distance / pair_score / score_pairs / get_mahalanobis_matrix of the
+   generated API: a change to get_metric or to a classifier mixin that the translator does not accept leaves it (and
+   what depends on it alone) compiling. *)
 
 (* generic (any carrier) *)
 Lemma vsum_sq_vdot {O : Ops} (r : list (T O)) :
@@ -31,10 +34,6 @@ Lemma src_transform_eq {O : Ops} (L : list (list (T O))) X :
   Src_query.transform L X = Mahalanobis.transform L X.
 Proof. reflexivity. Qed.
 
-Lemma src_metric_fun_eq {O : Ops} (L : list (list (T O))) u v sq :
-  Src_query.metric_fun L u v sq = Mahalanobis.metric_fun L u v sq.
-Proof. unfold Src_query.metric_fun, Mahalanobis.metric_fun. destruct sq; reflexivity. Qed.
-
 Lemma src_mahalanobis_eq {O : Ops} d (L : list (list (T O))) :
   Src_query.get_mahalanobis_matrix d L = Mahalanobis.mahalanobis d L.
 Proof. reflexivity. Qed.
@@ -54,3 +53,15 @@ Qed.
 Lemma nth_map_dflt {A B} (f : A -> B) l i da db : (i < length l)%nat ->
   nth i (map f l) db = f (nth i l da).
 Proof. intro H. rewrite (nth_indep _ db (f da)) by (rewrite map_length; auto). apply map_nth. Qed.
+
+(* distance of one pair, read off the generated (translated) pair_distance *)
+Definition d_src (L : Rm) (x y : Rv) : R := nth 0 (@Src_query.pair_distance ROps L [[x; y]]) 0.
+
+Arguments d_src : simpl never.
+
+Lemma d_src_dist L x y : d_src L x y = distR L x y.
+Proof. unfold d_src. rewrite src_pair_distance_eq. reflexivity. Qed.
+
+Lemma C01_batch (L : Rm) P :
+  @Src_query.pair_distance ROps L P = map (fun tp => d_src L (nth 0 tp []) (nth 1 tp [])) P.
+Proof. rewrite src_pair_distance_eq. apply map_ext. intro tp. rewrite d_src_dist. reflexivity. Qed.
